@@ -214,6 +214,9 @@ def extract_rules(m, run, summaries):
             vals = {v for v in srcs.values() if v is not None}
             run.ob('AX4.axis-map-single-valued', '%s %s target %s' % (fi.key, lab, AXL[k]), len(vals) == 1,
                    'target %s <- %s' % (AXL[k], sorted(vals)) if len(vals) == 1 else 'target direction %s takes %s' % (AXL[k], sorted(srcs.items())), site(fi))
+
+
+def extract_curves_rules(m, run, summaries):
     # extract_curves: set_ctrlpts([...]) of a row / column, degree and knot vector of the same source direction
     fc = m.func('construct.extract_curves')
     S = Obj('S', 2)
